@@ -994,7 +994,7 @@ def _ctor_norm(prog, t, _d=0):
         return t
     rt = resolve_terms(prog, rt, 0)
     alts = rt[1] if rt[0] == "phi" else (rt,)
-    if all(a[0] == "agg" and a[1].split("::")[0] in prog.crates and a[1].split("::")[-1] not in ("Result", "Option") for a in alts):
+    if all((a[0] == "agg" and a[1].split("::")[0] in prog.crates and a[1].split("::")[-1] not in ("Result", "Option")) or a[0] == "tuple" for a in alts):
         return intern(rt)
     return t
 
@@ -1023,6 +1023,9 @@ def _normalise_op(prog, op):
     result with its parameter bound to the load of the same item/key), op['key'] and op['wop']
     ('save' for save/update, else the op).  op/args stay as written."""
     from .mir import intern
+    # a key (or value) produced by a local constructor helper — `request_key(batch, user)` returning
+    # the tuple — is the tuple / struct it builds
+    op["args"] = tuple(op["args"][:2]) + tuple(_ctor_norm(prog, a) for a in op["args"][2:])
     args = op["args"]
     op["wop"] = op["op"]
     if op["kind"] != "w" or len(args) <= 2:
@@ -1108,6 +1111,8 @@ def must_pass(ctx, block, targets=None):
 def _is_pure_small(prog, body):
     if body.kind != "fn" or len(body.blocks) > 400:
         return False
+    if (body.j.get("ret_ty") or "").startswith(("cw_storage_plus::", "&cw_storage_plus::", "cw_controllers::", "&cw_controllers::")):
+        return False  # storage-container constructors are identities of the container, not values
     for bi, t in body.calls():
         nm = call_name(t) or ""
         if nm.startswith(STORE_TYPES) and nm.split("::")[-1] in STORE_WRITE:
